@@ -589,7 +589,8 @@ class World:  # pylint: disable=too-many-instance-attributes,too-many-public-met
             self.stats['skipped'] += 1
             return {'skipped': True}
         pack = packs[op.get('pack', 0) % len(packs)]
-        self.handle(side, op).repack_pack(pack, compress_mode=self.compress_arg(op.get('mode', 'keep')))
+        recorder = CallbackRecorder() if op.get('callback') else None
+        self.handle(side, op).repack_pack(pack, compress_mode=self.compress_arg(op.get('mode', 'keep')), callback=recorder)
         return {'mode': op.get('mode', 'keep'), 'pack': pack}
 
     def op_delete(self, side, op):
